@@ -381,7 +381,7 @@ def initial(w, st):
 KINDS = ('exploit', 'privesc', 'service_scan', 'os_scan', 'subnet_scan', 'process_scan', 'noop')
 
 
-def make_action(w, kind, target, name=None, os=None, tag="a", req_symbolic=True, cost=None, prob=None):
+def make_action(w, kind, target, name=None, os=None, tag="a", req_symbolic=True, cost=None, prob=None, grant=None):
     """A real Action object whose numeric fields come from the source."""
     src = w.src
     A = World()
@@ -394,7 +394,7 @@ def make_action(w, kind, target, name=None, os=None, tag="a", req_symbolic=True,
     A.cost = cost if cost is not None else src.quarter("%s_cost" % tag, 0, 400) / 2
     if kind in ('exploit', 'privesc'):
         A.prob = prob if prob is not None else src.real("%s_prob" % tag, 0, 1)
-        A.grant = src.int("%s_grant" % tag, 1, 2)
+        A.grant = grant if grant is not None else src.int("%s_grant" % tag, 1, 2)
     else:
         A.prob = 1.0
         A.grant = None
